@@ -487,6 +487,15 @@ impl TShim {
                 r?;
                 w.finish()
             }
+            "shortfin" => {
+                // a row with fewer cells than declared, never ended explicitly, then finish(): refused, nothing malformed
+                let cols = vec![vcol("a", ColumnType::MYSQL_TYPE_VAR_STRING, ColumnFlags::empty()), vcol("b", ColumnType::MYSQL_TYPE_VAR_STRING, ColumnFlags::empty())];
+                let mut w = results.start(&cols)?;
+                w.write_col("x")?;
+                let r = w.finish();
+                self.notes.borrow_mut().push(format!("shortfin:{}", r.is_err()));
+                r
+            }
             "big" => {
                 let n = num(parts[1]) as usize;
                 let cols = vec![vcol("blob", ColumnType::MYSQL_TYPE_BLOB, ColumnFlags::empty())];
@@ -814,6 +823,13 @@ fn w_c03_responses() {
     let r = converse(hs41(b"u", 0), &[(c_prepare(b"p:1:1:0"), 0), (c_long(1, 0, b"x"), 0), (c_close(1), 0), quit()], vec![], false, None, None);
     let m = replies(&r);
     assert!(r.result.is_ok() && m.len() == 1 + 3, "[C03.w.noreply] CLOSE / SEND_LONG_DATA / QUIT produced reply bytes ({} messages)", m.len());
+    // a short last row that is never ended explicitly must be refused by finish() (text and binary), not sent
+    for bin in [false, true] {
+        let r = if bin { converse(hs41(b"u", 0), &[(c_query(b"setexec=shortfin"), 0), (c_prepare(b"p:1:0:0"), 0), (c_execute(1, &[], true), 0), quit()], vec![], false, None, None) }
+                else { converse(hs41(b"u", 0), &[(c_query(b"shortfin"), 0), quit()], vec![], false, None, None) };
+        assert!(r.panicked || r.notes.iter().any(|n| n == "shortfin:true"), "[C03.w.shape] finish() accepted a last row with fewer cells than declared ({} protocol)", if bin { "binary" } else { "text" });
+        cases += 1;
+    }
     // commands that expect no reply produce no bytes -- also when they are refused (a stray packet would be read as the
     // reply to the client's NEXT command and shift everything after it)
     let auth_only = converse(hs41(b"u", 0), &[quit()], vec![], false, None, None).out.len();
